@@ -505,7 +505,41 @@ func genProgram(r *rng, kind string, focus string) *program {
 		}
 		p.threads = append(p.threads, ops)
 	}
-	if focus == "" && r.chance(1, 3) {
+	if (focus == "" || focus == "reader") && r.chance(1, 4) {
+		// long chains without resizes: a bigger table whose keys all collide in one bucket (and, for some
+		// modes, in the top-hash / h2 bits too); holes in earlier buckets come from the deletes
+		p.small = 8 + 8*r.intn(2)
+		p.hashMd = []int{1, 3, 4}[r.intn(3)]
+		if kind == "mapof" || kind == "cacheof" {
+			p.hashMd = []int{1, 3}[r.intn(2)]
+		}
+		p.prefill = nil
+		n := 4 + r.intn(9)
+		nkeys = n
+		for i := 0; i < n; i++ {
+			if isCache {
+				p.prefill = append(p.prefill, fmt.Sprintf("set k%d %s %d", i, v(), int64(3_600_000_000_000)))
+			} else {
+				p.prefill = append(p.prefill, fmt.Sprintf("store k%d %s", i, v()))
+			}
+		}
+		// holes
+		for i := 0; i < 1+r.intn(3); i++ {
+			p.prefill = append(p.prefill, fmt.Sprintf("delete k%d", r.intn(n)))
+		}
+		p.threads = nil
+		for i := 0; i < 2+r.intn(2); i++ {
+			var ops []string
+			for j := 0; j < 1+r.intn(3); j++ {
+				if isCache {
+					ops = append(ops, cacheOp())
+				} else {
+					ops = append(ops, mapOp())
+				}
+			}
+			p.threads = append(p.threads, ops)
+		}
+	} else if focus == "" && r.chance(1, 3) {
 		// resize pressure: fill the table to the brink of a grow, then race an inserting thread (grow), a
 		// deleting thread (shrink) and/or Clear with the others
 		per := 3
@@ -543,18 +577,53 @@ func genProgram(r *rng, kind string, focus string) *program {
 		}
 	}
 	switch focus {
+	case "lazy":
+		// every key is expired-but-uncleaned when the concurrent phase starts: lazy deletion on read and
+		// DeleteExpired race writers that store fresh values
+		p.prefill = nil
+		for i := 0; i < nkeys; i++ {
+			p.prefill = append(p.prefill, fmt.Sprintf("set k%d %s 5", i, v()))
+		}
+		p.prefill = append(p.prefill, "tick 6")
+		for i := range p.threads {
+			var ops []string
+			for j := 0; j < 1+r.intn(2); j++ {
+				k := key()
+				if i%2 == 0 {
+					ops = append(ops, []string{"get ", "getexp ", "getttl ", "get "}[r.intn(4)]+k)
+					if r.chance(1, 4) {
+						ops[len(ops)-1] = "deleteexpired"
+					}
+				} else {
+					switch r.intn(5) {
+					case 0:
+						ops = append(ops, fmt.Sprintf("set %s %s %d", k, v(), int64(3_600_000_000_000)))
+					case 1:
+						ops = append(ops, fmt.Sprintf("getorset %s %s %d", k, v(), int64(3_600_000_000_000)))
+					case 2:
+						ops = append(ops, fmt.Sprintf("getandset %s %s %d", k, v(), int64(50)))
+					case 3:
+						ops = append(ops, fmt.Sprintf("compute %s s:%s s:%s %d", k, v(), v(), int64(3_600_000_000_000)))
+					default:
+						ops = append(ops, fmt.Sprintf("getorcompute %s %s %d", k, v(), int64(3_600_000_000_000)))
+					}
+				}
+			}
+			p.threads[i] = ops
+		}
 	case "range":
 		// one traversal (sometimes with a re-entrant visitor) against writers
 		stop := "*"
 		if r.chance(1, 4) {
 			stop = key()
 		}
+		p.small = 1 + r.intn(4)
 		line := "range " + stop
-		if r.chance(1, 3) {
+		if r.chance(1, 2) {
 			if isCache {
-				line += fmt.Sprintf(" set %s %s %d;delete %s", key(), v(), dur(), key())
+				line += fmt.Sprintf(" set extra%d %s %d;set extra%d %s %d;delete %s", r.intn(9), v(), int64(3_600_000_000_000), r.intn(9), v(), int64(3_600_000_000_000), key())
 			} else {
-				line += fmt.Sprintf(" store %s %s;delete %s;store extra%d %s", key(), v(), key(), r.intn(5), v())
+				line += fmt.Sprintf(" store extra%d %s;store extra%d %s;delete %s;store extra%d %s", r.intn(9), v(), r.intn(9), v(), key(), r.intn(9), v())
 			}
 		}
 		p.threads[0] = []string{line}
